@@ -40,6 +40,7 @@ package starkcurve
 //@ ensures[short] len(buf) < SizeOfG1AffineCompressed ==> !isnil(result1) && result0 == 0
 //@ ensures[reject-count] !isnil(result1) ==> result0 == 0
 //@ ensures[infinity] isnil(result1) && md == mCompressedInfinity ==> zeroed && iszero(p.X) && iszero(p.Y) && result0 == SizeOfG1AffineCompressed
+//@ ensures[infinity-bytes] isnil(result1) && md == mCompressedInfinity ==> forall(j, 1, SizeOfG1AffineCompressed, buf[j] == 0)
 //@ ensures[short-raw] md == mUncompressed && len(buf) < SizeOfG1AffineUncompressed ==> !isnil(result1) && result0 == 0
 //@ ensures[raw-canonical] isnil(result1) && md == mUncompressed ==> canonX && canonY && result0 == SizeOfG1AffineUncompressed
 //@ ensures[raw-on-curve] isnil(result1) && md == mUncompressed ==> (subGroupCheck && insub) || (!subGroupCheck && oncurve)
